@@ -11,6 +11,41 @@ CHECKS = {
          "Generated parameter sets and write/read/supply/outside-change histories, values constructed on and next to every active limit; each write and read is judged against the statement's clauses in exact Fraction arithmetic and a reference of the documented priority order. Search, not proof: sampled histories up to 30 ops.",
          "Trusts Python's Fraction/float conversions; inputs are ints/dyadics (exact float arithmetic) plus arbitrary floats <= 1e12; supply finite >= 0.",
          "3/C06"),
+ "C04": ("exploration",
+         "Hypothesis program generation (signatures, curry splits, groupings) vs hand-nested construction + call-binding model; exhaustive Catalan groupings",
+         "Generated chains with exec-built classes of generated signatures; every grouping/split must equal hand nesting (types, target identity, arguments, construction log); each template call is judged against an independent model of Python call binding (itself validated against real calls). All Catalan groupings up to 6 operators enumerated; the rest sampled.",
+         "Trusts Python's own call semantics as ground truth for the binding model (cross-checked on every complete argument list); argument values are ints and pool instances.",
+         "3/C04"),
+ "C07": ("exploration",
+         "Hypothesis histories vs recomputation from the children (fsum/Fraction)",
+         "Generated child sets (zero/equal/single/log-uniform weights) and histories of writes, child state changes and membership changes; conservation, proportionality, ranges, exact read-back and documented fallbacks checked after every operation.",
+         "Magnitudes restricted to {0} and [1e-6, 1e9]; tolerances 1e-9 relative as stated in the evidence.",
+         "3/C07"),
+ "C08": ("exploration",
+         "Hypothesis step sequences with on-threshold values; Stepwise under trio virtual clock; call-log oracle",
+         "Generated parameters, rule/slave tables in random declaration order and step sequences with states on, one ulp beside and away from every threshold; direction/amount clauses in exact arithmetic, exactly-one-rule / exactly-one-controller from recorded call logs.",
+         "Stepwise is observed through real run() iterations under trio.testing.MockClock; one ulp tolerance on Linear amounts.",
+         "3/C08"),
+ "C14": ("exploration",
+         "Hypothesis-generated plugin sets through real entry-point discovery; call-log + ordering oracle",
+         "Generated plugin sets with acyclic before/after graphs (incl. absent names), required flags and configuration mappings, loaded through a scratch entry-point group with the real load_section_plugins and load_configuration; validation-before-digest, exactly-once, identity of content, kept results and constraint order are checked.",
+         "Constraint graphs acyclic by construction; entrypoints' directory scan is the real discovery path.",
+         "3/C14"),
+ "C16": ("exploration",
+         "Hypothesis stacks x histories; capturing log handler snapshots target state at emission",
+         "Generated decorator stacks (depth 0-6) and histories; pass-through of supply/utilisation/allocation at every layer, identity pass-through of demand for plain/Logger stacks, one record per write with level/name/args/state-before-write, template validation.",
+         "Buffer.run is not driven here (C09); Logger default name follows the implementation (target's class qualname).",
+         "3/C16"),
+ "C17": ("exploration",
+         "Hypothesis records decoded by an independent line-protocol reference parser / json.loads (round trip)",
+         "Generated records over an alphabet with every protocol-special character; output decoded by an independently written InfluxDB 1.x line-protocol parser and compared field by field (names, tags, field kinds and values, timestamp in integer arithmetic); JSON compared with the documented merge order.",
+         "The reference parser implements the documented escaping rules of line protocol 1.x; inputs the protocol cannot express are excluded (listed in evidence).",
+         "3/C17"),
+ "C19": ("exploration",
+         "Hypothesis trees vs independent recursive evaluator; scratch package of recording factories",
+         "Generated trees with __type__ nodes and failing nodes at arbitrary depth, evaluated by Translator and PipelineTranslator and by an independent post-order evaluator; structure, call log (order, arguments, exactly once), error type, error location tokens and the call-log prefix before the failure must agree.",
+         "Keys are identifier-like; the location string is tokenised into keys and indices rather than compared textually.",
+         "3/C19"),
 }
 
 def main():
